@@ -511,8 +511,34 @@ def _item(eng, st, a):
 CURRENT_ENGINE = None       # set by Engine.__init__: where fail-closed notes of the primitive table go
 
 
+def _creating_literal(e):
+    """A struct literal that copies some fields from an entry stored under ANOTHER key of the same map (`Proposal { title:
+    old.title, .., status: Open }` saved under a fresh id) is canonicalised by the engine like `S { changed, ..old }`; written to a
+    different key it is not an update of `old` but a new entry: give it back its literal form, unchanged fields spelled `old.f`."""
+    v = e.value
+    fields = {}
+    base = v
+    while base[0] == "update":
+        for n, x in base[2]:
+            fields.setdefault(n, x)
+        base = base[1]
+    b = base
+    if b[0] == "vfield" and b[2] == "Some" and b[1][0] == "vfield":
+        b = b[1]
+    if not (b[0] == "vfield" and b[2] == "Ok" and b[1][0] in ("load", "may_load") and b[1][1] == e.item and b[1][2] != e.key):
+        return v
+    adt = CURRENT_ENGINE.item_value_adt(e.item)
+    a = CURRENT_ENGINE.facts.adt(adt) if adt else None
+    if not a or len(a["variants"]) != 1:
+        return v
+    names = [f["name"] for f in a["variants"][0]["fields"]]
+    return ("struct", adt, tuple((n, fields.get(n, ("field", base, n))) for n in names))
+
+
 def _eff(st, kind, **kw):
     e = Effect(kind, loops=st.loopstack, stack=st.stack, **kw)
+    if kind == "write" and CURRENT_ENGINE is not None and isinstance(e.value, tuple) and e.value and e.value[0] == "update":
+        e.value = _creating_literal(e)
     if kind == "write" and isinstance(e.item, tuple) and e.item and e.item[0] == "submap" and CURRENT_ENGINE is not None:
         # writing a snapshot container's history map directly rewrites the past: no rule attributes that to the container
         CURRENT_ENGINE.blind.add(("write through %s" % e.item[2], "@" + (e.site[2] if e.site and len(e.site) > 2 else "?")))
